@@ -1059,8 +1059,9 @@ async fn live_pair_tokio() -> Case {
     c.tag("sockets-alive")
 }
 
-/// C20 on the running services: a record received with TTL 10 is still known 6.5 s later, whatever the listener's
-/// background refresh (which wakes at half the TTL, 5 s, to ask again) does in between - both flavours
+/// C20 on the running services: a record received with TTL 8 within the listener's first second is still known 6 s later,
+/// whatever the background refresh (which first wakes 5 s after start-up, when the record is past its refresh point of
+/// half the TTL) does in between - both flavours
 pub fn live_short_ttl() -> Vec<Case> {
     use std::net::UdpSocket;
     use std::time::{Duration, Instant};
@@ -1085,17 +1086,17 @@ pub fn live_short_ttl() -> Vec<Case> {
         let mut seen = false;
         while t0.elapsed() < Duration::from_secs(2) && !seen {
             let _ = sock.send_to(&announce(svc, "long", 120), "224.0.0.251:5353");
-            let _ = sock.send_to(&announce(svc, "short", 10), "224.0.0.251:5353");
+            let _ = sock.send_to(&announce(svc, "short", 8), "224.0.0.251:5353");
             std::thread::sleep(Duration::from_millis(150));
             let k = sd.get_known_services();
             seen = k.iter().any(|i| i.unescaped_instance_name() == "short") && k.iter().any(|i| i.unescaped_instance_name() == "long");
         }
         if !seen { return c.tag("sockets-not-exercised"); }
         let received = Instant::now();
-        while received.elapsed() < Duration::from_millis(6500) { std::thread::sleep(Duration::from_millis(100)); }
+        while received.elapsed() < Duration::from_millis(6000) { std::thread::sleep(Duration::from_millis(100)); }
         let k = sd.get_known_services();
         if !k.iter().any(|i| i.unescaped_instance_name() == "long") { return c.tag("sockets-not-exercised"); }
-        if !k.iter().any(|i| i.unescaped_instance_name() == "short") { c = c.fail("cache-expiry", "sync listener: an instance received with TTL 10 is no longer known 6.5 s later (another one with TTL 120 is)".into()); } else { c = c.tag("sockets-alive"); }
+        if !k.iter().any(|i| i.unescaped_instance_name() == "short") { c = c.fail("cache-expiry", "sync listener: an instance received with TTL 8 is no longer known 6 s later (another one with TTL 120 is)".into()); } else { c = c.tag("sockets-alive"); }
         c
     });
     let tokio_case = std::thread::spawn(move || -> Case {
@@ -1113,16 +1114,16 @@ pub fn live_short_ttl() -> Vec<Case> {
             let mut seen = false;
             while t0.elapsed() < Duration::from_secs(2) && !seen {
                 let _ = sock.send_to(&announce(svc, "long", 120), "224.0.0.251:5353");
-                let _ = sock.send_to(&announce(svc, "short", 10), "224.0.0.251:5353");
+                let _ = sock.send_to(&announce(svc, "short", 8), "224.0.0.251:5353");
                 tokio::time::sleep(Duration::from_millis(150)).await;
                 let k = sd.get_known_services().await;
                 seen = k.iter().any(|i| i.unescaped_instance_name() == "short") && k.iter().any(|i| i.unescaped_instance_name() == "long");
             }
             if !seen { return c.tag("sockets-not-exercised"); }
-            tokio::time::sleep(Duration::from_millis(6500)).await;
+            tokio::time::sleep(Duration::from_millis(6000)).await;
             let k = sd.get_known_services().await;
             if !k.iter().any(|i| i.unescaped_instance_name() == "long") { return c.tag("sockets-not-exercised"); }
-            if !k.iter().any(|i| i.unescaped_instance_name() == "short") { c = c.fail("cache-expiry", "tokio listener: an instance received with TTL 10 is no longer known 6.5 s later (another one with TTL 120 is)".into()); } else { c = c.tag("sockets-alive"); }
+            if !k.iter().any(|i| i.unescaped_instance_name() == "short") { c = c.fail("cache-expiry", "tokio listener: an instance received with TTL 8 is no longer known 6 s later (another one with TTL 120 is)".into()); } else { c = c.tag("sockets-alive"); }
             c
         })
     });
